@@ -246,6 +246,7 @@ namespace ratio
         reason.emplace(&atm, af);
 
         // we check if we need to notify the new atom to any smart types..
+        bool notified = false;
         if (&atm.get_type().get_scope() != this)
         {
             std::queue<type *> q;
@@ -253,11 +254,24 @@ namespace ratio
             while (!q.empty())
             {
                 if (smart_type *st = dynamic_cast<smart_type *>(q.front()))
+                {
                     st->new_atom(*af);
+                    notified = true;
+                }
                 for (const auto &st : q.front()->get_supertypes())
                     q.push(st);
                 q.pop();
             }
+        }
+
+        if (is_fact && !notified && (is_impulse(atm) || is_interval(atm)))
+        { // no smart type takes care of this fact: as for the facts on the smart types, we apply the impulse/interval predicate whenever the fact becomes active..
+            set_ni(lit(atm.get_sigma()));
+            if (is_impulse(atm))
+                get_impulse().apply_rule(atm);
+            else
+                get_interval().apply_rule(atm);
+            restore_ni();
         }
     }
 
